@@ -56,6 +56,19 @@ def check(ctx):
         if w not in seen_widths:
             r1.fail('TYPE_UINT%d' % w, rel, f.lineno, 'no unsigned-wrap branch for guint%d in _create_const' % w)
     r1.exhaustive = True
+    # unsigned types whose width is not fixed by their name
+    guarded = set()
+    for n in P.walk_no_nested(f):
+        if isinstance(n, ast.Compare):
+            for side in [n.left] + n.comparators:
+                nm = py.const_name(side, tm) or ''
+                if nm.startswith('TYPE_'):
+                    guarded.add(nm)
+    unsigned_other = ['TYPE_USHORT', 'TYPE_UINT', 'TYPE_ULONG', 'TYPE_SIZE', 'TYPE_UINTPTR', 'TYPE_LONG_ULONG']
+    missing = [t for t in unsigned_other if t not in guarded]
+    r1.check(not missing, 'non-fixed-width unsigned types are wrapped', rel, f.lineno,
+             'constants of the unsigned types %s have no wrap branch in _create_const: `#define X ((guint) -1)` is emitted as value "-1" of type guint, outside the '
+             'range of its type (only guint8/16/32/64 are reduced modulo their width)' % missing, detail=missing)
 
     # ---- R2 members verbatim, declaration order
     r2 = ctx.rule('R2', 'enum members verbatim (ident, const_int), declaration order, bitfield routing', floor=8)
